@@ -332,6 +332,24 @@ Theorem C19_fix_db_adds_missing : forall db c i,
 Proof. exact fix_db_adds_missing. Qed.
 Print Assumptions C19_fix_db_adds_missing.
 
+(** * Event bloom filters (state/block.go AddReceipt, types/receipt.go BloomFilter) *)
+From Verif Require Import Codec.Bloom Codec.BloomProofs.
+
+(** No false negatives, whatever the bit positions of a key are: every event of a receipt is
+    found through the receipt's filter and through the block's filter. *)
+Theorem C19_bloom_receipt_event_found :
+  forall (single : bytes -> bytes), (forall k, List.length (single k) = bloom_len) ->
+  forall es e, In e es -> receipt_bloom_filter single (receipt_bloom single es) (ev_addr e) (ev_name e) = true.
+Proof. exact receipt_event_found. Qed.
+Print Assumptions C19_bloom_receipt_event_found.
+
+Theorem C19_bloom_block_event_found :
+  forall (single : bytes -> bytes), (forall k, List.length (single k) = bloom_len) ->
+  forall rs es e, In es rs -> In e es ->
+  receipts_bloom_filter single (block_bloom single rs) (ev_addr e) (ev_name e) = true.
+Proof. exact block_event_found. Qed.
+Print Assumptions C19_bloom_block_event_found.
+
 (** * Hardfork versions *)
 
 Theorem C19_fieldlists_hardfork : gen_struct_HardforkConfig = ["V2"; "V3"; "V4"; "V5"].
